@@ -81,6 +81,13 @@ Proof.
       apply fibs_at_in in Hf. apply deepcopy_snap_lo in E. destruct E as [Hlo _].
       assert (nx <= f) by (apply Hlo; unfold snap_labels; apply in_or_app; left; exact Hf).
       pose proof (hi_snap_tree nx _ _ (Hhi _ Hx) Hin). lia.
+  - destruct n; [discriminate|]. destruct (deepcopy (s_tree s) nx) as [c n1]. inversion H. reflexivity.
+  - destruct n; [discriminate|]. destruct (deepcopy (s_tree s) nx) as [c n1]. destruct sub as [i|].
+    + destruct (nth_error (es_of c) i) as [[ci [b v | f a es]]|]; try discriminate.
+      destruct (deepcopy (attach_attrs n1 d (S n) 1 (LF f a es)) (3 * n1 + 2)) as [c2 n3].
+      destruct (from_fiber _ c2 n3). inversion H. reflexivity.
+    + destruct (deepcopy (attach_attrs n1 d (S n) 0 c) (3 * n1 + 2)) as [c2 n3].
+      destruct (from_fiber _ c2 n3). inversion H. reflexivity.
 Qed.
 
 (* ---------- the result carries only labels at or above the counter of the call *)
@@ -144,6 +151,20 @@ Proof.
     destruct Hl as [Hl | Hl].
     + apply Hr0; [|exact Hl]. intros l' Hl'. apply Hlo. unfold snap_labels. apply in_or_app. left. exact Hl'.
     + apply Hlo. unfold snap_labels. apply in_or_app. right. exact Hl.
+  - destruct n; [discriminate|]. destruct (deepcopy (s_tree s) nx) as [c n1] eqn:Ec.
+    apply deepcopy_lo in Ec. destruct Ec as [Hc Hn]. inversion H; subst. cbn [v_res].
+    apply fiber_snap_lo. apply attach_attrs_lo; [exact Hn | exact Hc].
+  - destruct n; [discriminate|]. destruct (deepcopy (s_tree s) nx) as [c n1] eqn:Ec.
+    apply deepcopy_lo in Ec. destruct Ec as [Hc Hn]. destruct sub as [i|].
+    + destruct (nth_error (es_of c) i) as [[ci [b v | f a es]]|]; try discriminate.
+      destruct (deepcopy (attach_attrs n1 d (S n) 1 (LF f a es)) (3 * n1 + 2)) as [c2 n3] eqn:E2.
+      apply deepcopy_lo in E2. destruct E2 as [Hc2 Hn3].
+      destruct (from_fiber _ c2 n3) as [s' n''] eqn:Ef. inversion H; subst. cbn [v_res].
+      apply from_fiber_lo with (lo := nx) in Ef; [tauto | lia | eapply lo_ok_le; [|exact Hc2]; lia].
+    + destruct (deepcopy (attach_attrs n1 d (S n) 0 c) (3 * n1 + 2)) as [c2 n3] eqn:E2.
+      apply deepcopy_lo in E2. destruct E2 as [Hc2 Hn3].
+      destruct (from_fiber _ c2 n3) as [s' n''] eqn:Ef. inversion H; subst. cbn [v_res].
+      apply from_fiber_lo with (lo := nx) in Ef; [tauto | lia | eapply lo_ok_le; [|exact Hc2]; lia].
 Qed.
 
 (* ---------- mutation keeps labels *)
@@ -165,7 +186,8 @@ Proof. induction l as [| x l IH]; cbn; [reflexivity|]. rewrite IH. reflexivity. 
 Lemma snap_parts_enc r s :
   snap_parts (enc_snap r s)
   = Some (enc_et (erase (s_tree s)), map (fun x => Z.of_N (r x)) (snap_labels s),
-          VL (map (fun x => enc_labs r (r_fibers x)) (s_ranks s))).
+          VL [VL (map (fun x => enc_labs r (r_fibers x)) (s_ranks s));
+              VL (map (owner_code (s_ranks s)) (owners (s_tree s)))]).
 Proof. unfold snap_parts, enc_snap, enc_labs. rewrite zs_of_enc. reflexivity. Qed.
 
 Lemma same_struct_refl r s : same_struct (enc_snap r s) (enc_snap r s) = true.
